@@ -6,7 +6,7 @@ From PC Require Import Base.Cmp Base.Result Model.Pep440 Spec.Pep440Spec Spec.Sp
      Proofs.VersionFacts Proofs.RangeSpec Proofs.SpecifierAgree.
 From PC Require Import Proofs.UnionHull Proofs.UnionExact Proofs.InterExact Proofs.ParseCompose Proofs.Pep440RoundTrip Proofs.ClauseText Proofs.WildcardText Proofs.WildcardMembership.
 From PC Require Import Gen.RangeCmp Gen.RangeAllows Proofs.GenAgreeAllows.
-From PC Require Import Proofs.DiffUnion Proofs.SortedOrder Proofs.UnionSorted Proofs.Closure.
+From PC Require Import Proofs.DiffUnion Proofs.SortedOrder Proofs.UnionSorted Proofs.Closure Proofs.VersionLeafText Proofs.TextToSpec.
 Import ListNotations.
 Open Scope string_scope.
 
@@ -161,3 +161,22 @@ Theorem C04_exclusion_in_class : forall B v, wf v = true -> is_local v = false -
   inK B (VUnion [RR None (Some v) false false; RR (Some v) None false false]).
 Proof. exact ne_in_K. Qed.
 Print Assumptions C04_exclusion_in_class.
+
+(* end to end, for comma sets of comparison clauses: from the TEXT 'op1 V1, op2 V2, ...' (literals in normal form without local label,
+   mutually regular) to PEP 440: the constraint _parse_constraint builds admits a candidate exactly when every specifier 'op_i V_i' of
+   Spec/Specifier.v does, for every well-formed candidate that is regular for the literals - its local label, pre-, post- and dev
+   segments included.  (Clause parser followed through the text: C04_clause_text; the six clauses on regular candidates:
+   clause_regular_spec; the comma set: C04_comma_set_general.) *)
+Theorem C04_comma_set_text_to_specifiers : forall B, mutual B -> forall m (cl : list (string * version)) g,
+  Forall (clause_ok B) cl -> parse_group m (map clause_text cl) = Ok g ->
+  forall c, wf c = true -> regB B c = true -> sem g c = forallb (fun oc => spec_of (fst oc) (reparsed (snd oc)) c) cl.
+Proof. exact comma_text_spec. Qed.
+Print Assumptions C04_comma_set_text_to_specifiers.
+Theorem C04_clause_on_regular_candidates : forall op l c, In op [">="; "<="; ">"; "<"; "=="; "!="]%string -> wf l = true -> wf c = true -> is_local l = false ->
+  regular1 c l = true -> sem (op_result op l) c = spec_of op l c.
+Proof. exact clause_regular_spec. Qed.
+Print Assumptions C04_clause_on_regular_candidates.
+Example C04_text_to_specifiers_example :
+  mutual ex_clB /\ Forall (clause_ok ex_clB) ex_cl /\
+  match parse_group false (map clause_text ex_cl) with Ok g => vc_str g | Err e => Err e end = Ok ">=1.0,<1.5 || >1.5,<2.0"%string.
+Proof. exact text_to_specifiers_example. Qed.
